@@ -58,4 +58,9 @@ def classify(run, i, model):
 def run(tier, seed, replay):
     if replay:
         return langcheck.replay_cmd(PROP, replay)
-    return langcheck.standard(PROP, tier, seed, cases(tier, seed), classify)
+    def direct(run, chk):
+        # the whole-program theorem (Lang/BroadcastProofs.v: operands on whole registers act bit by bit) on every case it applies to
+        direct.expansion = langcheck.expansion_oracle(run, chk)
+    return langcheck.standard(PROP, tier, seed, cases(tier, seed) + [dict(src=s, family="whole-register-operands") for s in gen.loop_fragment_cases(random.Random(seed + 5), 80 if tier == "quick" else 1500)],
+                              classify, direct=direct,
+                              extra_cov=lambda run: {"whole_program_theorem_judgement_on_real_programs": getattr(direct, "expansion", {})})
